@@ -10,8 +10,16 @@
    everything a tick writes to that log -- the ticks of the system simulations below it, at any depth --
    comes after its own entry and carries its time; the same containment is checked on whole nested
    simulations of the real schedulers by the correspondence run (oracle code 49).
+   AT MESSAGE LEVEL, ANY INTERLEAVING ([C04_inner_tick_inside_outer_tick_any_interleaving], [C04_answers_only_from_a_running_tick]):
+   in the alert protocol of Model/Alert.v (the bookkeeping of all schedulers of a nesting with the messages in flight; interrupts
+   at any moment; the real runs are replayed in it step by step, see C07) a scheduler starts a tick only when it is not ticking
+   and ends it only when every component it updates has answered (the guards of the steps), and in every reachable state a ticking
+   nested scheduler's system simulation has been handed its Input in a tick of the enclosing scheduler that is still running,
+   has not answered it, and the two ticks carry one time; an Output in flight comes from a component of a running tick that has
+   been handed its Input, has not been answered for, and whose own scheduler has finished.
    Property theorems only. *)
-From TV Require Import Base Model.Wiring Model.Ticker Model.Master Model.Component Model.Sim Proofs.MasterP Proofs.LogP.
+From TV Require Import Base Model.Wiring Model.Ticker Model.Master Model.Component Model.Sim Proofs.MasterP Proofs.LogP
+  Model.Alert Proofs.AlertP.
 Open Scope Z_scope.
 
 (* no tick starts before the previous one has ended; every tick ends with its own time; every
@@ -70,3 +78,25 @@ Example C04_nonvacuous :
   o1 = [OTickStart 0 [3%positive]; OAct (Upd 3%positive 0 [])] /\ o2 = [] /\
   o3 = [OTickEnd 0; OArm 10] /\ o4 = [OTickStart 1 [3%positive]; OAct (Upd 3%positive 1 [])].
 Proof. vm_compute. repeat split; reflexivity. Qed.
+
+(* ---------- at message level, under any interleaving (Model/Alert.v) *)
+Theorem C04_inner_tick_inside_outer_tick_any_interleaving : forall cfg tops initial s,
+  tree_okb cfg = true -> AReachFrom cfg (a_boot tops initial) s ->
+  forall p x lv t', child cfg p x lv -> a_tick (getl s lv) = Some t' ->
+  exists t, a_tick (getl s p) = Some t /\ In x (t_handed t) /\ In x (t_todo t) /\ t_time t' = t_time t.
+Proof.
+  intros cfg tops initial s Hok HR. destruct (tree_okb_sound cfg Hok) as [H1 [H2 H3]].
+  destruct (boot_inv cfg H3 tops initial) as [B1 B2]. destruct (reach_inv_from cfg H1 H2 H3 _ s B1 B2 HR) as [HS _].
+  apply (as_par _ _ HS).
+Qed.
+
+Theorem C04_answers_only_from_a_running_tick : forall cfg tops initial s,
+  tree_okb cfg = true -> AReachFrom cfg (a_boot tops initial) s ->
+  forall p c ca, In (c, AOut ca) (a_q (getl s p)) ->
+  exists t, a_tick (getl s p) = Some t /\ In c (t_todo t) /\ In c (t_handed t) /\
+            forall lv, child cfg p c lv -> a_tick (getl s lv) = None.
+Proof.
+  intros cfg tops initial s Hok HR. destruct (tree_okb_sound cfg Hok) as [H1 [H2 H3]].
+  destruct (boot_inv cfg H3 tops initial) as [B1 B2]. destruct (reach_inv_from cfg H1 H2 H3 _ s B1 B2 HR) as [HS _].
+  apply (as_q _ _ HS).
+Qed.
